@@ -548,6 +548,7 @@ pub fn run(tier: Tier) -> i32 {
     rep.assume("weight sums strictly between 1e-15 and 1e-6 away from 1 are unspecified by the property and not in the alphabet");
     voiceset_part(rep);
     many_voices_part(rep, tier);
+    unwritable_stderr_part(rep, &["voiceset-rejection", "weights-rejection"]);
     let corpus = labels::corpus();
     let utt = vec![corpus[41].clone(), corpus[42].clone()];
     for (cfg, nv) in [(GenCfg { gv: true, nstate: 2, ..GenCfg::default() }, 2usize), (GenCfg { gv: false, ns: 2, nstate: 1, stage: 1, order: 4, ..GenCfg::default() }, 3usize)] {
